@@ -94,6 +94,8 @@ def x_cli():
     quote = rust_char(quotes[0])
     m = need(r"\.split\(\|c:char\|c==('(?:[^'\\]|\\.)')\|\|c\.is_whitespace\(\)\)", pl, "syllable field separator")
     syl_sep = rust_char(m.group(1))
+    m = need(r"ifphrase\.(?:contains|chars\(\)\.any)\(\|c(?::char)?\|c==('(?:[^'\\]|\\.)')\|\|c\.is_whitespace\(\)\)\{", pl, "phrase separator test")
+    phrase_sep = rust_char(m.group(1))
     m = need(r"ifsyllable_str\.starts_with\(('(?:[^'\\]|\\.)')\)\{break;\}", pl, "comment test")
     comment = rust_char(m.group(1))
 
@@ -114,6 +116,8 @@ def x_cli():
          f"def cliComment : Nat := {ord(comment)}",
          "/-- syllable fields are split on this character or any whitespace -/",
          f"def cliSylSep : Nat := {ord(syl_sep)}",
+         "/-- a phrase containing this character or any whitespace is rejected -/",
+         f"def cliPhraseSep : Nat := {ord(phrase_sep)}",
          "/-- `dump`: `{}<sep1>{}<sep2>{}` and the string joining the syllables -/",
          f"def dumpSsvSep1 : List Nat := {cps(s1)}",
          f"def dumpSsvSep2 : List Nat := {cps(s2)}",
